@@ -326,6 +326,14 @@ func (h *handler1) handleBrokerPublish(ctx context.Context, mqPublish *mqPkts.Pu
 		return nil
 	}
 
+	// ... and so must the REGISTER for its topic (4B header + 4B REGISTER
+	// fields + topic name).
+	if len(mqPublish.TopicName) > snPkts1.MaxPacketLen-8 {
+		h.log.Error("Dropping message from MQTT broker, topic name too long for MQTT-SN (%d bytes)",
+			len(mqPublish.TopicName))
+		return nil
+	}
+
 	// Get TopicID
 	var needsRegister bool
 	var topicID uint16
